@@ -78,6 +78,7 @@ Print Assumptions C02_packed_score_site_shift.
 From Coquelicot Require Import Coquelicot.
 From PV Require Import proofs.LensFacts proofs.LensModel.
 From PV Require Import gen.GenFns proofs.SourceFacts.
+From PV Require Import model.Iter proofs.SearchFacts.
 Local Open Scope R_scope.
 
 Theorem C02_segment_integral :
@@ -168,4 +169,10 @@ Theorem C02_angle_term_is_source :
     gen_angle_term NN fsin pi_ l = fsin (n2 * pi_ / nofZ (Z.of_nat (length l)))%num.
 Proof. exact angle_term_is_source. Qed.
 Print Assumptions C02_angle_term_is_source.
+
+
+Theorem C02_check_intersection_is_source :
+  forall (NN : Num) (st : pstate NN), gen_check_intersection NN st = check_intersection NN st.
+Proof. exact check_intersection_is_source. Qed.
+Print Assumptions C02_check_intersection_is_source.
 
